@@ -6,7 +6,7 @@ Everything is in the uninterpreted-function style (no z3 Seq / no z3 Array):
   list / tuple / ulist      sort Lst        index view     len : Lst -> Int,  at : Lst x Int -> Val
                                             element view   mem : Lst x Val -> Bool   (x in l)
                                                            fst : Lst x Val -> Int    (l.index(x): position of the first occurrence)
-                                                           memp: Lst x Int x Val -> Bool   (x in l[:i], by its recurrence)
+                                                           memp(l, i, x) := mem(l, x) and fst(l, x) < i   (x in l[:i], a definition, not a symbol)
                                                            nodup : Lst -> Bool
   dict                      sort Dct        dom : Dct x Val -> Bool, get : Dct x Val -> Val,
                                             rk  : Dct x Val -> Int   insertion *time stamp* of a key (only the relative order of two
@@ -43,7 +43,6 @@ LEN = Function('len', Lst, IntSort())
 AT = Function('at', Lst, IntSort(), Val)
 MEM = Function('mem', Lst, Val, BoolSort())
 FST = Function('fst', Lst, Val, IntSort())
-MEMP = Function('memp', Lst, IntSort(), Val, BoolSort())
 NODUP = Function('nodup', Lst, BoolSort())
 
 DOM = Function('dom', Dct, Val, BoolSort())
@@ -109,7 +108,7 @@ class PList:
 
     @staticmethod
     def of_const(l):
-        return PList(LEN(l), lambda i: AT(l, zi(i)), lambda x: MEM(l, x), lambda x: FST(l, x), lambda i, x: MEMP(l, zi(i), x), NODUP(l), t=l)
+        return PList(LEN(l), lambda i: AT(l, zi(i)), lambda x: MEM(l, x), lambda x: FST(l, x), lambda i, x: And(MEM(l, x), FST(l, x) < zi(i)), NODUP(l), t=l)
 
     @staticmethod
     def literal(items):
@@ -231,16 +230,20 @@ class Maps:
         self.elems = []          # skolem witnesses and other elements every generator is instantiated at
         self.idxs = []
         self.mutations = []      # (site, owned?) for the frame report
+        self.witness_depth = 0   # 0: only witnesses created by the execution itself are instantiation points
         self.strs = {}
         self.cls_tags = {}
 
     # ------------------------------------------------------------------ instances
-    def inst(self, elems=(), idxs=(), rounds=4):
+    def inst(self, elems=(), idxs=(), rounds=3):
         """instances of every registered axiom generator at the given elements / indices (plus the recorded skolem witnesses).
         Evaluating a generator can register further generators and witnesses (a filter condition that builds a key list, a
         cardinality test), hence the passes; conditions are memoised, so a pass is idempotent."""
         out, seen = [], set()
-        for _ in range(rounds):
+        ckey = (tuple(x.get_id() for x in elems), tuple(zi(j).get_id() for j in idxs), len(self.gens), len(self.elems))
+        if getattr(self, '_inst_cache', (None, None))[0] == ckey:
+            return list(self._inst_cache[1])
+        for rnd in range(rounds):
             ng, ne = len(self.gens), len(self.elems)
             E = _dedup_terms(list(self.elems) + list(elems))
             J = _dedup_terms(list(self.idxs) + [zi(j) for j in idxs])
@@ -251,8 +254,11 @@ class Maps:
                     f = f if z3.is_expr(f) else BoolVal(bool(f))
                     if f.get_id() not in seen:
                         seen.add(f.get_id()); out.append(f)
+            if rnd >= self.witness_depth:
+                del self.elems[ne:]          # witnesses created while instantiating at witnesses are not instantiation points (finite)
             if len(self.gens) == ng and len(self.elems) == ne:
                 break
+        self._inst_cache = ((tuple(x.get_id() for x in elems), tuple(zi(j).get_id() for j in idxs), len(self.gens), len(self.elems)), list(out))
         return out
 
     def strv(self, lit):
@@ -272,14 +278,10 @@ class Maps:
             E2 = _dedup_terms(list(E) + [AT(l, j) for j in J])
             for x in E2:
                 out.append(Implies(MEM(l, x), And(0 <= FST(l, x), FST(l, x) < LEN(l), AT(l, FST(l, x)) == x)))
-                out.append(Not(MEMP(l, IntVal(0), x)))
-                out.append(MEMP(l, LEN(l), x) == MEM(l, x))
             for j in J:
                 a = AT(l, j)
                 inr = And(0 <= j, j < LEN(l))
                 out.append(Implies(inr, And(MEM(l, a), FST(l, a) <= j, Implies(NODUP(l), FST(l, a) == j))))
-                for x in E2:
-                    out.append(Implies(inr, MEMP(l, j + 1, x) == Or(MEMP(l, j, x), a == x)))
             return out
         self.gens.append(g)
         return PList.of_const(l)
@@ -323,6 +325,7 @@ class Maps:
                 out.append(Implies(And(MEM(r, x), MEM(r, y)), (FST(r, x) < FST(r, y)) == (a.fst(x) < a.fst(y))))
             return out
         self.gens.append(g)
+        R.mem = a.mem                    # definitional: no instantiation needed for membership
         return R
 
     def filtered_list(self, ex, a, cond):
@@ -343,6 +346,7 @@ class Maps:
             return out
         self.gens.append(g)
         ex.use('axiom:[x for x in xs if p(x)] keeps exactly the members satisfying p, in the order of xs (element view)')
+        R.mem = lambda x: And(a.mem(x), cond(x))
         return R
 
     def keys_list(self, ex, d):
@@ -361,6 +365,7 @@ class Maps:
             return out
         self.gens.append(g)
         ex.use('axiom:dict.keys() lists the keys without duplicates in insertion order')
+        R.mem = d.dom
         return R
 
     def concat(self, ex, a, b):
@@ -470,6 +475,38 @@ class Maps:
         if v.kind in ('none', 'int', 'bool', 'str', 'func'):
             return {'int': v.kind in ('int', 'bool'), 'bool': v.kind == 'bool', 'str': v.kind == 'str'}.get(tname, False)
         return None
+
+    def class_attr(self, cls, name):
+        """class-level `name = <expr>` or a @property along the recorded base chain -> ('assign', node) | ('property', key) | None"""
+        c = cls
+        while c is not None and c in self.classes:
+            mod, cdef, base = self.classes[c]
+            for n in cdef.body:
+                if isinstance(n, ast.Assign) and len(n.targets) == 1 and isinstance(n.targets[0], ast.Name) and n.targets[0].id == name:
+                    return ('assign', n.value)
+                if isinstance(n, ast.FunctionDef) and n.name == name:
+                    if any(isinstance(d, ast.Name) and d.id == 'property' for d in n.decorator_list):
+                        return ('property', '%s.%s' % (c, name))
+                    return ('method', '%s.%s' % (c, name))
+            c = base
+        return None
+
+    def attr(self, ex, st, e, recv, name):
+        if recv.kind not in ('pdict', 'plist'):
+            return NotImplemented
+        ca = self.class_attr(recv.cls, name)
+        if ca is not None and ca[0] == 'assign':
+            from .symex import State
+            return ex.eval(State(), ca[1])
+        if ca is not None and ca[0] == 'property' and ca[1] in ex.inline:
+            return ex.call_inline_expr(st, ca[1], [recv], {})
+        if ca is not None and ca[0] == 'method':
+            return SV('bound', None, recv=recv, mname=name)
+        if recv.kind == 'pdict':
+            key = self.resolve(recv.cls, '__getattr__')
+            if key is not None and key in ex.inline:
+                return ex.call_inline_expr(st, key, [recv, V(self.strv(name), 'str')], {})
+        return NotImplemented
 
     def name(self, ex, st, ident):
         if ident in self.classes or ident in ('list', 'dict', 'tuple'):
@@ -628,6 +665,15 @@ class Maps:
                     r = h(ex, st, fn, args, kwargs, star, dstar)
                     if r is not NotImplemented:
                         return r
+                recv = fn.recv
+                key = self.resolve(recv.cls, fn.mname) if recv.kind in ('plist', 'pdict') else None
+                if key is not None and key in ex.inline:
+                    kw = dict(kwargs)
+                    if star is not None:
+                        kw['*'] = star
+                    if dstar is not None:
+                        kw['**'] = dstar
+                    return ex.call_inline_expr(st, key, [recv] + list(args), kw)
                 raise OutOfSubset('*/** call of method %s' % fn.mname)
             return self.method(ex, st, e, fn.recv, fn.mname, args, kwargs)
         h = self.contracts.get('__call__')
@@ -1124,6 +1170,16 @@ class Maps:
         if it.kind == 'tuple':
             pl = self.as_plist(ex, it)
             return pl.len, (lambda st2, j: V(pl.at(j)))
+        if it.kind == 'items':
+            # for k, v in d.items(): the keys in insertion order, each with its value
+            pd = it.of.pd
+            kl = it.f.get('keys')
+            if kl is None:
+                kl = self.keys_list(ex, pd)
+                it.f['keys'] = kl
+            kty = it.of.f.get('kty', 'key')
+            ex.use('axiom:for k, v in d.items() visits the keys in insertion order, each once, with v = d[k]')
+            return kl.len, (lambda st2, j: T([V(kl.at(j), kty), V(pd.get(kl.at(j)), it.of.f.get('vty', 'any'))]))
         return NotImplemented
 
     # ------------------------------------------------------------------ havoc / merge
